@@ -6,6 +6,7 @@ import Mathlib.Tactic.NormNum
 import Mathlib.Tactic.Positivity
 import Mathlib.Algebra.Order.Floor.Ring
 import Mathlib.Data.Rat.Floor
+import Mathlib.Data.List.Perm.Basic
 /-!
 # C17 — NTv2 grid files (theorems about the hand model `GeodeVerif/Model/Ntv2.lean`)
 
@@ -196,5 +197,728 @@ theorem bicubic_hermite {K : Type} [Field K] [CharZero K]
   unfold_bicubic
   simp only [List.cons.injEq, and_true]
   refine ⟨?_, ?_, ?_, ?_, ?_, ?_, ?_, ?_, ?_, ?_, ?_, ?_, ?_, ?_, ?_, ?_⟩ <;> ring
+
+/-! ## 3. Sub-grid choice -/
+
+/-- Python `round(x)` (half to even) on a rational -/
+def roundHalfEven (q : ℚ) : ℤ :=
+  if q - ⌊q⌋ < 1 / 2 then ⌊q⌋
+  else if 1 / 2 < q - ⌊q⌋ then ⌊q⌋ + 1
+  else if ⌊q⌋ % 2 = 0 then ⌊q⌋ else ⌊q⌋ + 1
+
+/-- exact rational arithmetic: what the `Float` primitives approximate -/
+def qops : Ops ℚ where
+  ofInt := fun i => (i : ℚ)
+  pw := fun a n => a ^ n
+  truncI := fun q => .ok (if 0 ≤ q then ⌊q⌋ else ⌈q⌉)
+  roundI := fun q => .ok (roundHalfEven q)
+  isZero := fun q => decide (q = 0)
+  le := fun a b => decide (a ≤ b)
+  lt := fun a b => decide (a < b)
+
+theorem roundHalfEven_int (k : ℤ) : roundHalfEven (k : ℚ) = k := by
+  simp [roundHalfEven]
+
+theorem mem_containing {subs : List (SubGrid ℚ)} {lat lon : ℚ} {sg : SubGrid ℚ} :
+    sg ∈ containing qops subs lat lon ↔
+      sg ∈ subs ∧ sg.sLat ≤ lat ∧ lat < sg.nLat ∧ sg.eLong ≤ lon ∧ lon < sg.wLong := by
+  simp [containing, contains, qops, and_assoc]
+
+/-- invariant of the selection loop once a first candidate has been taken -/
+private theorem finest_fold (l : List (SubGrid ℚ)) (g : SubGrid ℚ)
+    (hg : g.latInc ≠ 0) (hl : ∀ x ∈ l, x.latInc ≠ 0) :
+    ∃ r, (l.foldl (finestStep qops) (some g.latInc, some g)).2 = some r ∧ (r = g ∨ r ∈ l) ∧
+      r.latInc ≤ g.latInc ∧ ∀ x ∈ l, r.latInc ≤ x.latInc := by
+  induction l generalizing g with
+  | nil => exact ⟨g, rfl, Or.inl rfl, le_refl _, by simp⟩
+  | cons a t ih =>
+    have ha : a.latInc ≠ 0 := hl a (by simp)
+    have ht : ∀ x ∈ t, x.latInc ≠ 0 := fun x hx => hl x (by simp [hx])
+    simp only [List.foldl_cons]
+    by_cases hlt : a.latInc < g.latInc
+    · have hstep : finestStep qops (some g.latInc, some g) a = (some a.latInc, some a) := by
+        simp [finestStep, qops, hg, hlt]
+      rw [hstep]
+      obtain ⟨r, hr, hmem, hle, hall⟩ := ih a ha ht
+      refine ⟨r, hr, ?_, le_trans hle (le_of_lt hlt), ?_⟩
+      · rcases hmem with h | h
+        · exact Or.inr (by simp [h])
+        · exact Or.inr (by simp [h])
+      · intro x hx
+        rcases List.mem_cons.mp hx with h | h
+        · rw [h]; exact hle
+        · exact hall x h
+    · have hstep : finestStep qops (some g.latInc, some g) a = (some g.latInc, some g) := by
+        simp [finestStep, qops, hg, hlt]
+      rw [hstep]
+      obtain ⟨r, hr, hmem, hle, hall⟩ := ih g hg ht
+      refine ⟨r, hr, ?_, hle, ?_⟩
+      · rcases hmem with h | h
+        · exact Or.inl h
+        · exact Or.inr (by simp [h])
+      · intro x hx
+        rcases List.mem_cons.mp hx with h | h
+        · rw [h]; exact le_trans hle (not_lt.mp hlt)
+        · exact hall x h
+
+/-- C17.8 the loop returns a candidate whose latitude increment is minimal (increments non-zero) -/
+theorem finest_min (cands : List (SubGrid ℚ)) (hne : cands ≠ [])
+    (hinc : ∀ x ∈ cands, x.latInc ≠ 0) :
+    ∃ r, finest qops cands = some r ∧ r ∈ cands ∧ ∀ x ∈ cands, r.latInc ≤ x.latInc := by
+  cases cands with
+  | nil => exact absurd rfl hne
+  | cons a t =>
+    have ha : a.latInc ≠ 0 := hinc a (by simp)
+    have ht : ∀ x ∈ t, x.latInc ≠ 0 := fun x hx => hinc x (by simp [hx])
+    obtain ⟨r, hr, hmem, hle, hall⟩ := finest_fold t a ha ht
+    refine ⟨r, ?_, ?_, ?_⟩
+    · simpa [finest, finestStep] using hr
+    · rcases hmem with h | h
+      · simp [h]
+      · simp [h]
+    · intro x hx
+      rcases List.mem_cons.mp hx with h | h
+      · rw [h]; exact hle
+      · exact hall x h
+
+theorem finest_nil {α : Type} (ops : Ops α) : finest ops ([] : List (SubGrid α)) = none := rfl
+
+/-- C17.8 **finest sub-grid**: for any iteration order `perm` of the candidate set, the sub-grid
+used contains the point and no containing sub-grid has a smaller latitude increment; when the
+containing sub-grids have pairwise distinct increments the choice is the same for every order. -/
+theorem finest_subgrid (subs : List (SubGrid ℚ)) (lat lon : ℚ)
+    (perm : List (SubGrid ℚ) → List (SubGrid ℚ))
+    (hperm : (perm (containing qops subs lat lon)).Perm (containing qops subs lat lon))
+    (hinc : ∀ x ∈ subs, x.latInc ≠ 0)
+    (hne : containing qops subs lat lon ≠ []) :
+    ∃ r, finest qops (perm (containing qops subs lat lon)) = some r ∧
+      r ∈ subs ∧ (r.sLat ≤ lat ∧ lat < r.nLat ∧ r.eLong ≤ lon ∧ lon < r.wLong) ∧
+      ∀ x ∈ subs, (x.sLat ≤ lat ∧ lat < x.nLat ∧ x.eLong ≤ lon ∧ lon < x.wLong) →
+        r.latInc ≤ x.latInc := by
+  have hne' : perm (containing qops subs lat lon) ≠ [] := by
+    intro h; rw [h] at hperm; exact hne (List.Perm.nil_eq hperm).symm
+  have hinc' : ∀ x ∈ perm (containing qops subs lat lon), x.latInc ≠ 0 := by
+    intro x hx
+    exact hinc x (mem_containing.mp (hperm.mem_iff.mp hx)).1
+  obtain ⟨r, hr, hmem, hmin⟩ := finest_min _ hne' hinc'
+  have hr' := mem_containing.mp (hperm.mem_iff.mp hmem)
+  refine ⟨r, hr, hr'.1, hr'.2, ?_⟩
+  intro x hx hcx
+  exact hmin x (hperm.mem_iff.mpr (mem_containing.mpr ⟨hx, hcx⟩))
+
+/-- order independence: with pairwise distinct increments among the containing sub-grids, two
+iteration orders give the same sub-grid -/
+theorem finest_order_independent (subs : List (SubGrid ℚ)) (lat lon : ℚ)
+    (p1 p2 : List (SubGrid ℚ) → List (SubGrid ℚ))
+    (h1 : (p1 (containing qops subs lat lon)).Perm (containing qops subs lat lon))
+    (h2 : (p2 (containing qops subs lat lon)).Perm (containing qops subs lat lon))
+    (hinc : ∀ x ∈ subs, x.latInc ≠ 0)
+    (hdist : ∀ x ∈ containing qops subs lat lon, ∀ y ∈ containing qops subs lat lon,
+      x.latInc = y.latInc → x = y) :
+    finest qops (p1 (containing qops subs lat lon)) = finest qops (p2 (containing qops subs lat lon)) := by
+  by_cases hne : containing qops subs lat lon = []
+  · have e1 : p1 (containing qops subs lat lon) = [] := by
+      rw [hne] at h1 ⊢; exact List.Perm.eq_nil h1
+    have e2 : p2 (containing qops subs lat lon) = [] := by
+      rw [hne] at h2 ⊢; exact List.Perm.eq_nil h2
+    rw [hne] at e1 e2 ⊢
+    rw [e1, e2]
+  · obtain ⟨r1, hr1, hm1, hc1, hmin1⟩ := finest_subgrid subs lat lon p1 h1 hinc hne
+    obtain ⟨r2, hr2, hm2, hc2, hmin2⟩ := finest_subgrid subs lat lon p2 h2 hinc hne
+    have hle1 := hmin1 r2 hm2 hc2
+    have hle2 := hmin2 r1 hm1 hc1
+    have : r1 = r2 := hdist r1 (mem_containing.mpr ⟨hm1, hc1⟩) r2 (mem_containing.mpr ⟨hm2, hc2⟩)
+      (le_antisymm hle1 hle2)
+    rw [hr1, hr2, this]
+
+/-! ## 4. Outside every sub-grid; method and type checks; sign of the shifts -/
+
+/-- C17.9 (executed `Float` definition) no sub-grid contains the point ⇒ `interpolate_ntv2` returns
+the four `None`s, whatever the bytes of the file and the iteration order -/
+theorem interpolate_outside (b : ByteArray) (g : Grid Float) (lat lon : Float) (method : String)
+    (perm : List (SubGrid Float) → List (SubGrid Float)) (hperm : perm [] = [])
+    (hm : method = "bicubic" ∨ method = "bilinear")
+    (hout : containing fops g.subgrids (lat * 3600.0) (lon * (-3600.0)) = []) :
+    interpolate b g lat lon method perm = .ok none := by
+  have hm' : (method != "bicubic" && method != "bilinear") = false := by
+    rcases hm with h | h <;> simp [h]
+  simp [interpolate, plan, hm', hout, hperm, finest_nil, bind, Except.bind, pure, Except.pure]
+
+/-- unsupported method ⇒ `ValueError`, before anything else is looked at -/
+theorem interpolate_bad_method (b : ByteArray) (g : Grid Float) (lat lon : Float) (method : String)
+    (perm : List (SubGrid Float) → List (SubGrid Float))
+    (hm : method ≠ "bicubic" ∧ method ≠ "bilinear") :
+    interpolate b g lat lon method perm = .error .ValueError := by
+  have hm' : (method != "bicubic" && method != "bilinear") = true := by
+    simp [hm.1, hm.2]
+  simp [interpolate, plan, hm', bind, Except.bind, throw, throwThe, MonadExceptOf.throw]
+
+section twod
+variable {α : Type} [Add α] [Sub α] [Mul α] [Div α] (ops : Ops α)
+
+/-- C17.9 `ntv2_2d`: four `None`s ⇒ `ValueError` -/
+theorem ntv2_2d_outside (method : String) (hm : method = "bicubic" ∨ method = "bilinear")
+    (lat lon : α) (fwd : Bool) :
+    ntv2_2dOf ops true method (.ok none) lat lon fwd = .error .ValueError := by
+  have hm' : (method != "bicubic" && method != "bilinear") = false := by
+    rcases hm with h | h <;> simp [h]
+  simp [ntv2_2dOf, hm', bind, Except.bind, throw, throwThe, MonadExceptOf.throw]
+
+/-- wrong grid type ⇒ `TypeError` (checked first) -/
+theorem ntv2_2d_type_error (method : String) (i : Except Err (Option (α × α × α × α)))
+    (lat lon : α) (fwd : Bool) :
+    ntv2_2dOf ops false method i lat lon fwd = .error .TypeError := by
+  simp [ntv2_2dOf, bind, Except.bind, throw, throwThe, MonadExceptOf.throw]
+
+/-- unsupported method ⇒ `ValueError` -/
+theorem ntv2_2d_bad_method (method : String) (hm : method ≠ "bicubic" ∧ method ≠ "bilinear")
+    (i : Except Err (Option (α × α × α × α))) (lat lon : α) (fwd : Bool) :
+    ntv2_2dOf ops true method i lat lon fwd = .error .ValueError := by
+  have hm' : (method != "bicubic" && method != "bilinear") = true := by simp [hm.1, hm.2]
+  simp [ntv2_2dOf, hm', bind, Except.bind, throw, throwThe, MonadExceptOf.throw]
+
+/-- an exception of the interpolation propagates -/
+theorem ntv2_2d_propagates (method : String) (hm : method = "bicubic" ∨ method = "bilinear")
+    (e : Err) (lat lon : α) (fwd : Bool) :
+    ntv2_2dOf ops true method (.error e) lat lon fwd = .error e := by
+  have hm' : (method != "bicubic" && method != "bilinear") = false := by
+    rcases hm with h | h <;> simp [h]
+  simp [ntv2_2dOf, hm', bind, Except.bind]
+
+/-- with four values the result is `applyShift` of the first two -/
+theorem ntv2_2d_value (method : String) (hm : method = "bicubic" ∨ method = "bilinear")
+    (s : α × α × α × α) (lat lon : α) (fwd : Bool) :
+    ntv2_2dOf ops true method (.ok (some s)) lat lon fwd = .ok (applyShift ops lat lon s.1 s.2.1 fwd) := by
+  have hm' : (method != "bicubic" && method != "bilinear") = false := by
+    rcases hm with h | h <;> simp [h]
+  simp [ntv2_2dOf, hm', bind, Except.bind, pure, Except.pure]
+end twod
+
+/-- C17.10 **sign and unit of the shifts**: forward adds the latitude shift and subtracts the
+positive-west longitude shift (arc-seconds → degrees); reverse does the opposite -/
+theorem shift_signs (lat lon s0 s1 : ℚ) :
+    applyShift qops lat lon s0 s1 true = (lat + s0 / 3600, lon - s1 / 3600) ∧
+    applyShift qops lat lon s0 s1 false = (lat - s0 / 3600, lon + s1 / 3600) := by
+  simp [applyShift, qops]
+
+/-- reverse undoes forward when the same shifts are applied -/
+theorem shift_reverse_forward (lat lon s0 s1 : ℚ) :
+    let p := applyShift qops lat lon s0 s1 true
+    applyShift qops p.1 p.2 s0 s1 false = (lat, lon) := by
+  simp [applyShift, qops]
+
+/-! ## 5. Byte offset of a sub-grid's first node -/
+
+/-- bytes occupied by a list of sub-grids: 11 header records and the nodes, each -/
+def blockBytes {α : Type} (l : List (SubGrid α)) : Nat :=
+  (l.map fun sg => 176 + sg.gsCount * 16).sum
+
+/-- C17.2 **data offset**, by induction over the sub-grid list: when the loop reaches the first
+sub-grid called `name` it has accumulated the overview header (the initial 176), the header and
+nodes of every preceding sub-grid, and this sub-grid's own header. -/
+theorem data_offset {α : Type} (name : String) (pre : List (SubGrid α)) (sg : SubGrid α)
+    (post : List (SubGrid α)) (skip : Nat)
+    (hpre : ∀ x ∈ pre, x.subName ≠ name) (hsg : sg.subName = name) :
+    locate name (pre ++ sg :: post) skip = some (skip + blockBytes pre + 176) := by
+  induction pre generalizing skip with
+  | nil => simp [locate, hsg, blockBytes]
+  | cons a t ih =>
+    have ha : a.subName ≠ name := hpre a (by simp)
+    have ht : ∀ x ∈ t, x.subName ≠ name := fun x hx => hpre x (by simp [hx])
+    simp only [List.cons_append, locate, beq_iff_eq, ha, if_false]
+    rw [ih _ ht]
+    simp only [blockBytes, List.map_cons, List.sum_cons]
+    congr 1; omega
+
+/-- the value used by `interpolate_ntv2` (initial `skip_bytes = 176`): the offset of the first node
+of sub-grid number `k` in a well-formed file, `176 + Σ_{j<k} (176 + 16·count_j) + 176` -/
+theorem data_offset_176 {α : Type} (name : String) (pre : List (SubGrid α)) (sg : SubGrid α)
+    (post : List (SubGrid α)) (hpre : ∀ x ∈ pre, x.subName ≠ name) (hsg : sg.subName = name) :
+    locate name (pre ++ sg :: post) 176 = some (176 + blockBytes pre + 176) :=
+  data_offset name pre sg post 176 hpre hsg
+
+/-- no sub-grid of that name ⇒ the loop never calls the interpolator (`UnboundLocalError` in the
+model's `plan`; cannot happen for a name taken from the dict itself) -/
+theorem locate_none {α : Type} (name : String) (l : List (SubGrid α)) (skip : Nat)
+    (h : ∀ x ∈ l, x.subName ≠ name) : locate name l skip = none := by
+  induction l generalizing skip with
+  | nil => rfl
+  | cons a t ih =>
+    have ha : a.subName ≠ name := h a (by simp)
+    simp only [locate, beq_iff_eq, ha, if_false]
+    exact ih _ (fun x hx => h x (by simp [hx]))
+
+/-! ## 6. Row / column arithmetic -/
+
+/-- whatever the arithmetic (in particular for the executed `Float` instance): the patched
+`interpolate_ntv2` never leaves the last cell, and uses the bicubic reader only where the 4×4
+stencil fits inside the sub-grid -/
+theorem cellOf_bounds {α : Type} [Add α] [Sub α] [Mul α] [Div α] (ops : Ops α) (sg : SubGrid α)
+    (lat lon : α) (wb : Bool) (c : Cell) (h : cellOf ops sg lat lon wb = .ok c) :
+    c.row ≤ c.numRows - 2 ∧ c.col ≤ c.numCols - 2 ∧
+    (c.bicubic = true → wb = true ∧ 1 ≤ c.row ∧ c.row ≤ c.numRows - 3 ∧ 1 ≤ c.col ∧ c.col ≤ c.numCols - 3) := by
+  unfold cellOf at h
+  simp only [bind, Except.bind, pure, Except.pure, throw, throwThe, MonadExceptOf.throw] at h
+  by_cases h1 : ops.isZero sg.longInc = true
+  · simp [h1] at h
+  simp only [h1, if_false, Bool.false_eq_true] at h
+  cases hA : ops.roundI ((sg.wLong - sg.eLong) / sg.longInc) with
+  | error e => simp [hA] at h
+  | ok nc =>
+    simp only [hA] at h
+    by_cases h2 : ops.isZero sg.latInc = true
+    · simp [h2] at h
+    simp only [h2, if_false, Bool.false_eq_true] at h
+    cases hB : ops.truncI ((lat - sg.sLat) / sg.latInc) with
+    | error e => simp [hB] at h
+    | ok r =>
+      cases hC : ops.truncI ((lon - sg.eLong) / sg.longInc) with
+      | error e => simp [hB, hC] at h
+      | ok cc =>
+        cases hD : ops.roundI ((sg.nLat - sg.sLat) / sg.latInc) with
+        | error e => simp [hB, hC, hD] at h
+        | ok nr =>
+          simp only [hB, hC, hD, Except.ok.injEq] at h
+          subst h
+          simp only [stencilFits, Bool.and_eq_true, decide_eq_true_eq]
+          refine ⟨min_le_right _ _, min_le_right _ _, ?_⟩
+          rintro ⟨hw, ⟨⟨h1, h2⟩, h3⟩, h4⟩
+          exact ⟨hw, h1, h2, h3, h4⟩
+
+/-- C17.3 **row / column** over ℚ: for a sub-grid whose extents are whole multiples of its
+(positive) increments, `nrows × ncols` nodes, and a point with `s ≤ lat < n`, `e ≤ lon < w`
+(arc-seconds, positive west): `num_cols = ncols`, `num_rows = nrows`, `row = ⌊(lat−s)/Δφ⌋`,
+`col = ⌊(lon−e)/Δλ⌋` (the clamps do nothing), `0 ≤ row ≤ nrows−2`, `0 ≤ col ≤ ncols−2`, the point
+lies in the cell, and bicubic is used iff it was asked for and the stencil fits. -/
+theorem row_col (sg : SubGrid ℚ) (nrows ncols : ℕ) (lat lon : ℚ) (wb : Bool)
+    (hdlat : 0 < sg.latInc) (hdlon : 0 < sg.longInc)
+    (hn : sg.nLat = sg.sLat + ((nrows : ℚ) - 1) * sg.latInc)
+    (hw : sg.wLong = sg.eLong + ((ncols : ℚ) - 1) * sg.longInc)
+    (hlat : sg.sLat ≤ lat ∧ lat < sg.nLat) (hlon : sg.eLong ≤ lon ∧ lon < sg.wLong) :
+    let row := ⌊(lat - sg.sLat) / sg.latInc⌋
+    let col := ⌊(lon - sg.eLong) / sg.longInc⌋
+    cellOf qops sg lat lon wb =
+      .ok { numCols := ncols, numRows := nrows, row := row, col := col,
+            bicubic := wb && stencilFits nrows ncols row col } ∧
+    0 ≤ row ∧ row ≤ (nrows : ℤ) - 2 ∧ 0 ≤ col ∧ col ≤ (ncols : ℤ) - 2 ∧
+    sg.sLat + row * sg.latInc ≤ lat ∧ lat < sg.sLat + (row + 1) * sg.latInc ∧
+    sg.eLong + col * sg.longInc ≤ lon ∧ lon < sg.eLong + (col + 1) * sg.longInc := by
+  intro row col
+  have hqr : 0 ≤ (lat - sg.sLat) / sg.latInc := div_nonneg (by linarith [hlat.1]) hdlat.le
+  have hqc : 0 ≤ (lon - sg.eLong) / sg.longInc := div_nonneg (by linarith [hlon.1]) hdlon.le
+  have hqr' : (lat - sg.sLat) / sg.latInc < (nrows : ℚ) - 1 := by
+    rw [div_lt_iff₀ hdlat]; linarith [hlat.2]
+  have hqc' : (lon - sg.eLong) / sg.longInc < (ncols : ℚ) - 1 := by
+    rw [div_lt_iff₀ hdlon]; linarith [hlon.2]
+  have hrow0 : 0 ≤ row := Int.floor_nonneg.mpr hqr
+  have hcol0 : 0 ≤ col := Int.floor_nonneg.mpr hqc
+  have hrow1 : row ≤ (nrows : ℤ) - 2 := by
+    have : row < (nrows : ℤ) - 1 := by
+      rw [Int.floor_lt]; push_cast; exact hqr'
+    omega
+  have hcol1 : col ≤ (ncols : ℤ) - 2 := by
+    have : col < (ncols : ℤ) - 1 := by
+      rw [Int.floor_lt]; push_cast; exact hqc'
+    omega
+  have hnc : (sg.wLong - sg.eLong) / sg.longInc = (((ncols : ℤ) - 1 : ℤ) : ℚ) := by
+    rw [hw]; push_cast; field_simp; ring
+  have hnr : (sg.nLat - sg.sLat) / sg.latInc = (((nrows : ℤ) - 1 : ℤ) : ℚ) := by
+    rw [hn]; push_cast; field_simp; ring
+  refine ⟨?_, hrow0, hrow1, hcol0, hcol1, ?_, ?_, ?_, ?_⟩
+  · unfold cellOf
+    simp only [qops, bind, Except.bind, pure, Except.pure, decide_eq_true_eq, hdlat.ne', hdlon.ne',
+      if_false, hnc, hnr, roundHalfEven_int, hqr, hqc, if_true]
+    have a1 : 1 + ((nrows : ℤ) - 1) = nrows := by ring
+    have a2 : 1 + ((ncols : ℤ) - 1) = ncols := by ring
+    rw [a1, a2]
+    have e1 : min ⌊(lat - sg.sLat) / sg.latInc⌋ ((nrows : ℤ) - 2) = row := min_eq_left hrow1
+    have e2 : min ⌊(lon - sg.eLong) / sg.longInc⌋ ((ncols : ℤ) - 2) = col := min_eq_left hcol1
+    rw [e1, e2]
+  · have := Int.floor_le ((lat - sg.sLat) / sg.latInc)
+    rw [le_div_iff₀ hdlat] at this; linarith
+  · have := Int.lt_floor_add_one ((lat - sg.sLat) / sg.latInc)
+    rw [div_lt_iff₀ hdlat] at this; linarith
+  · have := Int.floor_le ((lon - sg.eLong) / sg.longInc)
+    rw [le_div_iff₀ hdlon] at this; linarith
+  · have := Int.lt_floor_add_one ((lon - sg.eLong) / sg.longInc)
+    rw [div_lt_iff₀ hdlon] at this; linarith
+
+/-! ## 7. Node addressing: which bytes are read -/
+
+/-- the float32 stored at byte offset `p` (little endian), as a double -/
+def f32At (b : ByteArray) (p : Nat) : Float :=
+  (Float32.ofBits (UInt32.ofNat (intLE (bytesAt b p 4)))).toFloat
+
+/-- the four fields of the node stored at byte offset `p` -/
+def nodeAt (b : ByteArray) (p : Nat) : Node :=
+  (f32At b p, f32At b (p + 4), f32At b (p + 8), f32At b (p + 12))
+
+theorem bind_apply {α β : Type} (m : FileM α) (f : α → FileM β) (b : ByteArray) (p : Nat) :
+    (m >>= f) b p = match m b p with
+      | .error e => .error e
+      | .ok (a, p') => f a b p' := rfl
+
+theorem pure_apply {α : Type} (a : α) (b : ByteArray) (p : Nat) :
+    (pure a : FileM α) b p = .ok (a, p) := rfl
+
+theorem bytesAt_length (b : ByteArray) (p k : Nat) (h : p + k ≤ b.size) :
+    (bytesAt b p k).length = k := by
+  simp only [bytesAt, List.length_map, List.length_range]; omega
+
+theorem read_apply (b : ByteArray) (p k : Nat) :
+    Ntv2.read k b p = .ok (bytesAt b p k, p + min k (b.size - p)) := rfl
+
+theorem read_ok (b : ByteArray) (p k : Nat) (h : p + k ≤ b.size) :
+    Ntv2.read k b p = .ok (bytesAt b p k, p + k) := by
+  rw [read_apply]
+  have : min k (b.size - p) = k := by omega
+  rw [this]
+
+/-- `f.seek(n, 1)` succeeds iff the new absolute offset is not negative -/
+theorem seekRel_ok (n : Int) (b : ByteArray) (p : Nat) (h : 0 ≤ (p : Int) + n) :
+    seekRel n b p = .ok ((), ((p : Int) + n).toNat) := by
+  simp only [seekRel]; rw [if_neg (by omega)]
+
+/-- … and raises `OSError` otherwise (this is what the unpatched bicubic reader ran into, or
+silently avoided by landing in the headers, in row 0) -/
+theorem seekRel_neg (n : Int) (b : ByteArray) (p : Nat) (h : (p : Int) + n < 0) :
+    seekRel n b p = .error .OSError := by
+  simp only [seekRel]; rw [if_pos h]
+
+theorem readNode_ok (b : ByteArray) (p : Nat) (h : p + 16 ≤ b.size) :
+    readNode b p = .ok (nodeAt b p, p + 16) := by
+  have l0 := bytesAt_length b p 4 (by omega)
+  have l1 := bytesAt_length b (p + 4) 4 (by omega)
+  have l2 := bytesAt_length b (p + 4 + 4) 4 (by omega)
+  have l3 := bytesAt_length b (p + 4 + 4 + 4) 4 (by omega)
+  simp only [readNode, bind_apply, pure_apply, read_ok b p 4 (by omega), read_ok b (p + 4) 4 (by omega),
+    read_ok b (p + 4 + 4) 4 (by omega), read_ok b (p + 4 + 4 + 4) 4 (by omega), FileM.lift, unpackF,
+    l0, l1, l2, l3, ne_eq, not_true_eq_false, if_false, nodeAt, f32At]
+
+/-- a short read makes `read_node` raise `struct.error` -/
+theorem readNode_short (b : ByteArray) (p : Nat) (h : b.size < p + 4) :
+    readNode b p = .error .StructError := by
+  have hl : (bytesAt b p 4).length ≠ 4 := by
+    simp only [bytesAt, List.length_map, List.length_range]; omega
+  simp only [readNode, bind_apply, read_apply, FileM.lift, unpackF, hl, ne_eq, not_false_eq_true, if_true,
+    FileM.throw]
+
+
+/-- byte offset of node `(r, c)` of a sub-grid whose first node is at `start` -/
+def nodePos (start : Nat) (numCols r c : Int) : Nat := ((start : Int) + 16 * nodeIndex numCols r c).toNat
+
+/-- C17.4 **bilinear reads**: when the cell `(row, col)` has non-negative index and the file is long
+enough, `ntv2_bilinear`'s seeks and reads return exactly the nodes `(row, col)`, `(row, col+1)`,
+`(row+1, col)`, `(row+1, col+1)` (in this order: n₁ n₂ n₃ n₄) of the block starting at `start`. -/
+theorem bilinear_nodes (b : ByteArray) (numCols row col : Int) (start : Nat)
+    (h0 : 0 ≤ nodeIndex numCols row col) (hnc : 0 ≤ numCols)
+    (hsz : (start : Int) + 16 * (nodeIndex numCols (row + 1) (col + 1) + 1) ≤ b.size) :
+    readBilinearNodes numCols row col start b 0 =
+      .ok ((nodeAt b (nodePos start numCols row col), nodeAt b (nodePos start numCols row (col + 1)),
+            nodeAt b (nodePos start numCols (row + 1) col),
+            nodeAt b (nodePos start numCols (row + 1) (col + 1))),
+           nodePos start numCols (row + 1) (col + 1) + 16) := by
+  have e2 : nodeIndex numCols row (col + 1) = nodeIndex numCols row col + 1 := by
+    unfold nodeIndex; ring
+  have e3 : nodeIndex numCols (row + 1) col = nodeIndex numCols row col + numCols := by
+    unfold nodeIndex; ring
+  have e4 : nodeIndex numCols (row + 1) (col + 1) = nodeIndex numCols row col + numCols + 1 := by
+    unfold nodeIndex; ring
+  simp only [nodePos, e2, e3, e4] at hsz ⊢
+  unfold readBilinearNodes
+  have eP : row * numCols + col = nodeIndex numCols row col := rfl
+  simp only [eP]
+  generalize nodeIndex numCols row col = P at *
+  simp only [bind_apply, pure_apply]
+  rw [seekRel_ok _ _ _ (by omega)]
+  simp only []
+  rw [seekRel_ok _ _ _ (by omega)]
+  simp only []
+  rw [readNode_ok _ _ (by omega)]
+  simp only []
+  rw [readNode_ok _ _ (by omega)]
+  simp only []
+  rw [seekRel_ok _ _ _ (by omega)]
+  simp only []
+  rw [readNode_ok _ _ (by omega)]
+  simp only []
+  rw [readNode_ok _ _ (by omega)]
+  simp only []
+  simp only [Except.ok.injEq, Prod.mk.injEq]
+  refine ⟨⟨?_, ?_, ?_, ?_⟩, ?_⟩
+  · congr 1; omega
+  · congr 1; omega
+  · congr 1; omega
+  · congr 1; omega
+  · omega
+
+
+/-- C17.5 **bicubic reads**: when the first stencil node `(row−1, col−1)` has a non-negative absolute
+file offset and the file is long enough, `ntv2_bicubic`'s seeks and reads return the sixteen nodes
+`(row+dr, col+dc)`, `dr, dc ∈ {−1, 0, 1, 2}` of the block starting at `start`, assigned to the
+interpolator's parameters as `bicubic_reproduces_biquadratic` assumes (node k at column offset u,
+row offset v: 1:(0,0) 2:(1,0) 3:(1,1) 4:(0,1) 5:(−1,−1) 6:(0,−1) 7:(1,−1) 8:(2,−1) 9:(2,0) 10:(2,1)
+11:(2,2) 12:(1,2) 13:(0,2) 14:(−1,2) 15:(−1,1) 16:(−1,0)). Nothing here says the offsets are inside
+the sub-grid's block: that is `stencil_inside_iff`. -/
+theorem bicubic_nodes (b : ByteArray) (numCols row col : Int) (start : Nat)
+    (h5 : 0 ≤ (start : Int) + 16 * nodeIndex numCols (row - 1) (col - 1)) (hnc : 0 ≤ numCols)
+    (hsz : (start : Int) + 16 * (nodeIndex numCols (row + 2) (col + 2) + 1) ≤ b.size) :
+    readBicubicNodes numCols row col start b 0 =
+      .ok ({ n1 := nodeAt b (nodePos start numCols row col),
+             n2 := nodeAt b (nodePos start numCols row (col + 1)),
+             n3 := nodeAt b (nodePos start numCols (row + 1) (col + 1)),
+             n4 := nodeAt b (nodePos start numCols (row + 1) col),
+             n5 := nodeAt b (nodePos start numCols (row - 1) (col - 1)),
+             n6 := nodeAt b (nodePos start numCols (row - 1) col),
+             n7 := nodeAt b (nodePos start numCols (row - 1) (col + 1)),
+             n8 := nodeAt b (nodePos start numCols (row - 1) (col + 2)),
+             n9 := nodeAt b (nodePos start numCols row (col + 2)),
+             n10 := nodeAt b (nodePos start numCols (row + 1) (col + 2)),
+             n11 := nodeAt b (nodePos start numCols (row + 2) (col + 2)),
+             n12 := nodeAt b (nodePos start numCols (row + 2) (col + 1)),
+             n13 := nodeAt b (nodePos start numCols (row + 2) col),
+             n14 := nodeAt b (nodePos start numCols (row + 2) (col - 1)),
+             n15 := nodeAt b (nodePos start numCols (row + 1) (col - 1)),
+             n16 := nodeAt b (nodePos start numCols row (col - 1)) },
+           nodePos start numCols (row + 2) (col + 2) + 16) := by
+  have e (dr dc : Int) : nodeIndex numCols (row + dr) (col + dc)
+      = nodeIndex numCols row col + dr * numCols + dc := by unfold nodeIndex; ring
+  have e' (dr : Int) : nodeIndex numCols (row + dr) col
+      = nodeIndex numCols row col + dr * numCols := by unfold nodeIndex; ring
+  have e'' (dc : Int) : nodeIndex numCols row (col + dc)
+      = nodeIndex numCols row col + dc := by unfold nodeIndex; ring
+  have em (dr dc : Int) : nodeIndex numCols (row - dr) (col - dc)
+      = nodeIndex numCols row col - dr * numCols - dc := by unfold nodeIndex; ring
+  have em1 (dr dc : Int) : nodeIndex numCols (row - dr) (col + dc)
+      = nodeIndex numCols row col - dr * numCols + dc := by unfold nodeIndex; ring
+  have em2 (dr dc : Int) : nodeIndex numCols (row + dr) (col - dc)
+      = nodeIndex numCols row col + dr * numCols - dc := by unfold nodeIndex; ring
+  have em3 (dr : Int) : nodeIndex numCols (row - dr) col
+      = nodeIndex numCols row col - dr * numCols := by unfold nodeIndex; ring
+  have em4 (dc : Int) : nodeIndex numCols row (col - dc)
+      = nodeIndex numCols row col - dc := by unfold nodeIndex; ring
+  simp only [nodePos, e, e', e'', em, em1, em2, em3, em4, one_mul] at h5 hsz ⊢
+  unfold readBicubicNodes
+  have eP : row * numCols + col = nodeIndex numCols row col := rfl
+  simp only [eP]
+  generalize nodeIndex numCols row col = P at *
+  simp only [bind_apply, pure_apply]
+  rw [seekRel_ok _ _ _ (by omega)]; simp only []
+  rw [seekRel_ok _ _ _ (by omega)]; simp only []
+  rw [readNode_ok _ _ (by omega)]; simp only []
+  rw [readNode_ok _ _ (by omega)]; simp only []
+  rw [readNode_ok _ _ (by omega)]; simp only []
+  rw [readNode_ok _ _ (by omega)]; simp only []
+  rw [seekRel_ok _ _ _ (by omega)]; simp only []
+  rw [readNode_ok _ _ (by omega)]; simp only []
+  rw [readNode_ok _ _ (by omega)]; simp only []
+  rw [readNode_ok _ _ (by omega)]; simp only []
+  rw [readNode_ok _ _ (by omega)]; simp only []
+  rw [seekRel_ok _ _ _ (by omega)]; simp only []
+  rw [readNode_ok _ _ (by omega)]; simp only []
+  rw [readNode_ok _ _ (by omega)]; simp only []
+  rw [readNode_ok _ _ (by omega)]; simp only []
+  rw [readNode_ok _ _ (by omega)]; simp only []
+  rw [seekRel_ok _ _ _ (by omega)]; simp only []
+  rw [readNode_ok _ _ (by omega)]; simp only []
+  rw [readNode_ok _ _ (by omega)]; simp only []
+  rw [readNode_ok _ _ (by omega)]; simp only []
+  rw [readNode_ok _ _ (by omega)]; simp only []
+  simp only [Except.ok.injEq, Prod.mk.injEq, Stencil.mk.injEq]
+  refine ⟨⟨?_, ?_, ?_, ?_, ?_, ?_, ?_, ?_, ?_, ?_, ?_, ?_, ?_, ?_, ?_, ?_⟩, ?_⟩
+  all_goals first | omega | (congr 1; omega)
+
+
+/-- a node inside the `nrows × ncols` grid has its file index in `[0, count)` -/
+theorem index_range (nrows ncols r c : Int) (hr : 0 ≤ r ∧ r < nrows) (hc : 0 ≤ c ∧ c < ncols) :
+    0 ≤ nodeIndex ncols r c ∧ nodeIndex ncols r c < nrows * ncols := by
+  unfold nodeIndex
+  have h1 : 0 ≤ r * ncols := mul_nonneg hr.1 (by omega)
+  have h2 : 0 ≤ (nrows - r - 1) * ncols := mul_nonneg (by omega) (by omega)
+  constructor
+  · omega
+  · nlinarith [h2]
+
+/-- C17.5 the sixteen stencil nodes all lie inside the sub-grid **iff**
+`1 ≤ row ≤ nrows−3 ∧ 1 ≤ col ≤ ncols−3` -/
+theorem stencil_inside_iff (nrows ncols row col : Int) :
+    (∀ dr ∈ ([-1, 0, 1, 2] : List Int), ∀ dc ∈ ([-1, 0, 1, 2] : List Int),
+        (0 ≤ row + dr ∧ row + dr < nrows) ∧ (0 ≤ col + dc ∧ col + dc < ncols)) ↔
+      stencilFits nrows ncols row col = true := by
+  simp only [stencilFits, Bool.and_eq_true, decide_eq_true_eq, List.mem_cons, List.not_mem_nil,
+    or_false, forall_eq_or_imp, forall_eq]
+  constructor
+  · intro h; omega
+  · intro h; omega
+
+/-- the four bilinear nodes lie inside the sub-grid for every cell `0 ≤ row ≤ nrows−2`,
+`0 ≤ col ≤ ncols−2` -/
+theorem cell_inside (nrows ncols row col : Int) (hr : 0 ≤ row ∧ row ≤ nrows - 2)
+    (hc : 0 ≤ col ∧ col ≤ ncols - 2) :
+    ∀ dr ∈ ([0, 1] : List Int), ∀ dc ∈ ([0, 1] : List Int),
+      (0 ≤ row + dr ∧ row + dr < nrows) ∧ (0 ≤ col + dc ∧ col + dc < ncols) := by
+  simp only [List.mem_cons, List.not_mem_nil, or_false, forall_eq_or_imp, forall_eq]
+  omega
+
+/-- C17.4 **nodes in range, bilinear** (also the patched bicubic fall-back): in a file that
+contains the sub-grid's `nrows·ncols` nodes from byte `start`, for a cell inside the sub-grid the
+reader succeeds, returns the four enclosing nodes, and every byte it reads belongs to a node with
+index in `[0, nrows·ncols)` of that sub-grid. -/
+theorem bilinear_reads_in_subgrid (b : ByteArray) (nrows ncols row col : Int) (start : Nat)
+    (hr : 0 ≤ row ∧ row ≤ nrows - 2) (hc : 0 ≤ col ∧ col ≤ ncols - 2)
+    (hfile : (start : Int) + 16 * (nrows * ncols) ≤ b.size) :
+    (∃ p, readBilinearNodes ncols row col start b 0 =
+      .ok ((nodeAt b (nodePos start ncols row col), nodeAt b (nodePos start ncols row (col + 1)),
+            nodeAt b (nodePos start ncols (row + 1) col),
+            nodeAt b (nodePos start ncols (row + 1) (col + 1))), p)) ∧
+    ∀ dr ∈ ([0, 1] : List Int), ∀ dc ∈ ([0, 1] : List Int),
+      0 ≤ nodeIndex ncols (row + dr) (col + dc) ∧ nodeIndex ncols (row + dr) (col + dc) < nrows * ncols := by
+  have hin := cell_inside nrows ncols row col hr hc
+  have hidx : ∀ dr ∈ ([0, 1] : List Int), ∀ dc ∈ ([0, 1] : List Int),
+      0 ≤ nodeIndex ncols (row + dr) (col + dc) ∧ nodeIndex ncols (row + dr) (col + dc) < nrows * ncols :=
+    fun dr hdr dc hdc => index_range nrows ncols _ _ (hin dr hdr dc hdc).1 (hin dr hdr dc hdc).2
+  refine ⟨⟨_, bilinear_nodes b ncols row col start ?_ (by omega) ?_⟩, hidx⟩
+  · have := (hidx 0 (by simp) 0 (by simp)).1
+    simpa using this
+  · have := (hidx 1 (by simp) 1 (by simp)).2
+    omega
+
+/-- C17.5 **nodes in range, bicubic**: where the stencil fits (`stencilFits`, the only place the
+patched code calls `ntv2_bicubic`) the reader succeeds, returns the sixteen nodes around the cell,
+and every one of them has its index in `[0, nrows·ncols)`. -/
+theorem bicubic_reads_in_subgrid (b : ByteArray) (nrows ncols row col : Int) (start : Nat)
+    (hfit : stencilFits nrows ncols row col = true)
+    (hfile : (start : Int) + 16 * (nrows * ncols) ≤ b.size) :
+    (∃ s p, readBicubicNodes ncols row col start b 0 = .ok (s, p) ∧
+      s.n1 = nodeAt b (nodePos start ncols row col) ∧
+      s.n5 = nodeAt b (nodePos start ncols (row - 1) (col - 1)) ∧
+      s.n11 = nodeAt b (nodePos start ncols (row + 2) (col + 2))) ∧
+    ∀ dr ∈ ([-1, 0, 1, 2] : List Int), ∀ dc ∈ ([-1, 0, 1, 2] : List Int),
+      0 ≤ nodeIndex ncols (row + dr) (col + dc) ∧ nodeIndex ncols (row + dr) (col + dc) < nrows * ncols := by
+  have hin := (stencil_inside_iff nrows ncols row col).mpr hfit
+  have hidx : ∀ dr ∈ ([-1, 0, 1, 2] : List Int), ∀ dc ∈ ([-1, 0, 1, 2] : List Int),
+      0 ≤ nodeIndex ncols (row + dr) (col + dc) ∧ nodeIndex ncols (row + dr) (col + dc) < nrows * ncols :=
+    fun dr hdr dc hdc => index_range nrows ncols _ _ (hin dr hdr dc hdc).1 (hin dr hdr dc hdc).2
+  have hnc : 0 ≤ ncols := by
+    have := hin 0 (by simp) 0 (by simp); omega
+  have h5 := (hidx (-1) (by simp) (-1) (by simp)).1
+  have h11 := (hidx 2 (by simp) 2 (by simp)).2
+  have hb := bicubic_nodes b ncols row col start
+    (by have : row + -1 = row - 1 := by ring
+        have : col + -1 = col - 1 := by ring
+        simp only [*] at h5; omega) hnc (by omega)
+  exact ⟨⟨_, _, hb, rfl, rfl, rfl⟩, hidx⟩
+
+/-- C17.5 **the defect of the unchanged reader** (`ntv2_bicubic` itself is not touched by the
+patch, so this is a statement about the code): for the south-east cell of a 3 × 3 sub-grid that is
+the only one in the file (first node at byte 352, file of 352 + 9·16 + 16 bytes with the END record),
+the reads succeed, no exception is raised, and "nodes" 5 and 16 are decoded from bytes 288… and
+336…, which are header records of the sub-grid, not nodes. -/
+theorem bicubic_ring_fails (b : ByteArray) (hb : b.size = 512) :
+    ∃ s p, readBicubicNodes 3 0 0 352 b 0 = .ok (s, p) ∧
+      s.n5 = nodeAt b 288 ∧ s.n16 = nodeAt b 336 ∧ s.n1 = nodeAt b 352 := by
+  have h := bicubic_nodes b 3 0 0 352 (by simp [nodeIndex]) (by norm_num)
+    (by simp [nodeIndex, hb])
+  exact ⟨_, _, h, by simp [nodePos, nodeIndex], by simp [nodePos, nodeIndex], by simp [nodePos, nodeIndex]⟩
+
+/-- … and in the north-west cell of the last sub-grid of a file the unchanged reader runs off the
+end of the file: `struct.error` (read of row `row+2`). 3 × 3 grid, `row = col = 1`, first node at
+352, file ends after the 9 nodes and the 16-byte END record. -/
+theorem bicubic_ring_raises (b : ByteArray) (hb : b.size = 512) :
+    readBicubicNodes 3 1 1 352 b 0 = .error .StructError := by
+  unfold readBicubicNodes
+  simp only [bind_apply, pure_apply]
+  rw [seekRel_ok _ _ _ (by omega)]; simp only []
+  rw [seekRel_ok _ _ _ (by omega)]; simp only []
+  rw [readNode_ok _ _ (by omega)]; simp only []
+  rw [readNode_ok _ _ (by omega)]; simp only []
+  rw [readNode_ok _ _ (by omega)]; simp only []
+  rw [readNode_ok _ _ (by omega)]; simp only []
+  rw [seekRel_ok _ _ _ (by omega)]; simp only []
+  rw [readNode_ok _ _ (by omega)]; simp only []
+  rw [readNode_ok _ _ (by omega)]; simp only []
+  rw [readNode_ok _ _ (by omega)]; simp only []
+  rw [readNode_ok _ _ (by omega)]; simp only []
+  rw [seekRel_ok _ _ _ (by omega)]; simp only []
+  rw [readNode_ok _ _ (by omega)]; simp only []
+  rw [readNode_ok _ _ (by omega)]; simp only []
+  rw [readNode_ok _ _ (by omega)]; simp only []
+  rw [readNode_ok _ _ (by omega)]; simp only []
+  rw [seekRel_ok _ _ _ (by omega)]; simp only []
+  rw [readNode_ok _ _ (by omega)]; simp only []   -- "node 14" = the END record
+  rw [readNode_short _ _ (by omega)]
+
+/-! ## 8. End to end over ℚ: fields given in latitude / longitude -/
+
+/-- the scale factors locate the point in its cell: `lon = e + (col + x)·Δλ`, `lat = s + (row + y)·Δφ` -/
+theorem cellXY_spec (sg : SubGrid ℚ) (lat lon : ℚ) (row col : ℤ)
+    (hdlat : sg.latInc ≠ 0) (hdlon : sg.longInc ≠ 0) :
+    lon = sg.eLong + ((col : ℚ) + (cellXY qops sg lat lon row col).1) * sg.longInc ∧
+    lat = sg.sLat + ((row : ℚ) + (cellXY qops sg lat lon row col).2) * sg.latInc := by
+  simp only [cellXY, qops]
+  constructor <;> field_simp <;> ring
+
+/-- in the cell found by `row_col` the scale factors are in `[0, 1)` -/
+theorem cellXY_unit (sg : SubGrid ℚ) (lat lon : ℚ)
+    (hdlat : 0 < sg.latInc) (hdlon : 0 < sg.longInc) :
+    let row := ⌊(lat - sg.sLat) / sg.latInc⌋
+    let col := ⌊(lon - sg.eLong) / sg.longInc⌋
+    let xy := cellXY qops sg lat lon row col
+    0 ≤ xy.1 ∧ xy.1 < 1 ∧ 0 ≤ xy.2 ∧ xy.2 < 1 := by
+  intro row col xy
+  have hx : xy.1 = (lon - sg.eLong) / sg.longInc - col := by
+    simp only [xy, cellXY, qops]; field_simp; ring
+  have hy : xy.2 = (lat - sg.sLat) / sg.latInc - row := by
+    simp only [xy, cellXY, qops]; field_simp; ring
+  rw [hx, hy]
+  refine ⟨?_, ?_, ?_, ?_⟩
+  · linarith [Int.floor_le ((lon - sg.eLong) / sg.longInc)]
+  · linarith [Int.lt_floor_add_one ((lon - sg.eLong) / sg.longInc)]
+  · linarith [Int.floor_le ((lat - sg.sLat) / sg.latInc)]
+  · linarith [Int.lt_floor_add_one ((lat - sg.sLat) / sg.latInc)]
+
+/-- C17.4 **bilinear interpolation reproduces any field linear in latitude and longitude**: with the
+four enclosing nodes carrying `F(lat_node, lon_node)` and the scale factors of `cellXY`, the blend
+is `F(lat, lon)` — for every cell index, in particular the one of `row_col`. -/
+theorem bilinear_linear_field (sg : SubGrid ℚ) (lat lon a bp bl : ℚ) (row col : ℤ)
+    (hdlat : sg.latInc ≠ 0) (hdlon : sg.longInc ≠ 0) :
+    let F : ℚ → ℚ → ℚ := fun φ l => a + bp * φ + bl * l
+    let node : ℤ → ℤ → ℚ := fun r c => F (sg.sLat + r * sg.latInc) (sg.eLong + c * sg.longInc)
+    let xy := cellXY qops sg lat lon row col
+    bilinearPoly (node row col) (node row (col + 1)) (node (row + 1) col) (node (row + 1) (col + 1))
+      xy.1 xy.2 = F lat lon := by
+  intro F node xy
+  simp only [F, node, xy, cellXY, qops, bilinearPoly]
+  push_cast
+  field_simp
+  ring
+
+/-- C17.6 the same for the bicubic interpolant with its sixteen stencil nodes (the 6-decimal
+rounding of `x`, `y` aside — this is the exact-arithmetic statement) -/
+theorem bicubic_linear_field (sg : SubGrid ℚ) (lat lon a bp bl : ℚ) (row col : ℤ)
+    (hdlat : sg.latInc ≠ 0) (hdlon : sg.longInc ≠ 0) :
+    let F : ℚ → ℚ → ℚ := fun φ l => a + bp * φ + bl * l
+    let node : ℤ → ℤ → ℚ := fun r c => F (sg.sLat + r * sg.latInc) (sg.eLong + c * sg.longInc)
+    let xy := cellXY qops sg lat lon row col
+    bicubicK (node row col) (node row (col + 1)) (node (row + 1) (col + 1)) (node (row + 1) col)
+      (node (row - 1) (col - 1)) (node (row - 1) col) (node (row - 1) (col + 1)) (node (row - 1) (col + 2))
+      (node row (col + 2)) (node (row + 1) (col + 2)) (node (row + 2) (col + 2)) (node (row + 2) (col + 1))
+      (node (row + 2) col) (node (row + 2) (col - 1)) (node (row + 1) (col - 1)) (node row (col - 1))
+      xy.1 xy.2 = F lat lon := by
+  intro F node xy
+  -- the node values are a linear field in the cell coordinates
+  have key := bicubic_reproduces_linear (K := ℚ)
+    (a + bp * (sg.sLat + row * sg.latInc) + bl * (sg.eLong + col * sg.longInc))
+    (bl * sg.longInc) (bp * sg.latInc) xy.1 xy.2
+  simp only at key
+  have hF : F lat lon = a + bp * (sg.sLat + row * sg.latInc) + bl * (sg.eLong + col * sg.longInc)
+      + bl * sg.longInc * xy.1 + bp * sg.latInc * xy.2 := by
+    simp only [F, xy, cellXY, qops]
+    field_simp
+    ring
+  rw [hF, ← key]
+  simp only [F, node]
+  push_cast
+  congr 1 <;> ring
 
 end GeodeVerif.C17
